@@ -51,6 +51,16 @@ class BalHooks(A.Hooks):
     def keep(self, ev):
         return ev[0] in ('call', 'return', 'raise') and (ev[0] != 'call' or 'ParameterCommand.' in ev[1])
 
+    def call(self, interp, node, fname, args, kwargs, state):
+        # enable / disable reached under another spelling (cls.disable(), an alias): recorded under the canonical name
+        if not fname.endswith(('ParameterCommand.enable', 'ParameterCommand.disable')) and fname.rsplit('.', 1)[-1] in ('enable', 'disable') \
+           and interp.model is not None:
+            info = interp.resolve_callee(node, state)
+            if info is not None and info.cls is not None and info.cls.name == 'ParameterCommand' and info.name in ('enable', 'disable'):
+                interp.emit(state, ('call', 'ParameterCommand.' + info.name, (), node.lineno))
+                return A.NONE
+        return None
+
 
 def balanced_functions(m):
     out = []
@@ -64,10 +74,13 @@ def balanced_functions(m):
                 for p in k.properties.values():
                     fns.extend(x for x in p.values() if x not in fns)
                 stack.extend(k.nested.values())
+        from .c04 import resolved_calls
         for f in fns:
             names = [M.call_name(c) for c in M.calls_in(f.node)]
             if any(n.endswith('ParameterCommand.enable') or n.endswith('ParameterCommand.disable') for n in names):
                 out.append(f)
+            elif any(cal.cls is not None and cal.cls.name == 'ParameterCommand' and cal.name in ('enable', 'disable') for c, cal in resolved_calls(m, f)):
+                out.append(f)             # (reached as cls.disable() / through an alias)
     return out
 
 
@@ -104,7 +117,8 @@ def r51(chk, m, rule_id='R5.1'):
         changed = False
         for name in sorted(work - helpers):
             f = byname.get(name)
-            if f is not None and f.name.startswith('_') and not f.name.startswith('__') and callers.get(name):
+            own = f is not None and f.cls is not None and f.cls.name == 'ParameterCommand'      # (a bracket that ParameterCommand itself offers)
+            if f is not None and ((f.name.startswith('_') and not f.name.startswith('__')) or own) and callers.get(name):
                 helpers.add(name)
                 new = callers[name] - work
                 work |= callers[name]
@@ -116,7 +130,7 @@ def r51(chk, m, rule_id='R5.1'):
         hk = BalHooks()
         hk.cls = fn.cls
         hk.should_inline = lambda fname, node, info: info is not None and info.fullname in helpers
-        it = A.Interp(model=m, scope=fn, hooks=hk, max_iter=1, exc_edges=True, inline=3 if helpers else 0)
+        it = A.Interp(model=m, scope=fn, hooks=hk, max_iter=1, exc_edges=True, inline=3 if helpers else 0, generators=True)
         outs = it.run_function(fn)
         chk.paths += len(outs)
         exits = {}
